@@ -130,11 +130,30 @@ func scenarioHostile() int {
 	slowBatches := 0
 	sinceRestart := 0
 	answered := 0
+	flooded := false
+	floodInputs := 0
 	for sent < total && run.Violations() <= 4 {
 		var batch []hostileInput
 		mark := w.Net.Count()
 		m0, _ := w.Proxy.MemStats()
 		var bbytes int64
+		if !flooded && sent >= B {
+			// once per proxy process: thousands of datagrams that are no messages at all (keep-alives,
+			// stray bytes) at one listener - it goes on serving like every other
+			flooded = true
+			fsvc := g.R.Intn(len(w.Svcs))
+			for k := 0; k < 6000; k++ {
+				in := hostileInput{svc: fsvc, proto: "udp", mut: "keep-alive-flood", raw: [][]byte{[]byte("\r\n\r\n"), []byte("\r\n"), []byte("jaK\n"), {0}, []byte("SIP/2.0")}[k%5]}
+				batch = append(batch, in)
+				hostileSend(w, in)
+				bbytes += int64(len(in.raw))
+				if k%20 == 19 {
+					time.Sleep(time.Millisecond) // paced: they are meant to arrive, not to be dropped by the kernel
+				}
+			}
+			floodInputs += 6000
+			run.Eval("keep-alive-flood|udp")
+		}
 		for k := 0; k < B; k++ {
 			svc := g.R.Intn(len(w.Svcs))
 			in := hostileInput{svc: svc, proto: []string{"udp", "tcp"}[g.R.Intn(2)]}
@@ -194,6 +213,9 @@ func scenarioHostile() int {
 		}
 		sent += len(batch)
 		sinceRestart += len(batch)
+		if n := len(batch); n > B {
+			sent -= n - B // the flood does not count against the number of inputs of the run
+		}
 		sentBytes += bbytes
 		// health, probes. A probe that is missed is retried under a generous watchdog:
 		// a proxy that is merely busy with the backlog of a heavy batch on a loaded
@@ -252,6 +274,7 @@ func scenarioHostile() int {
 				break
 			}
 			sinceRestart = 0
+			flooded = false
 			continue
 		}
 		// memory
@@ -283,6 +306,7 @@ func scenarioHostile() int {
 				break
 			}
 			sinceRestart = 0
+			flooded = false
 		}
 	}
 	run.Observe("inputs_sent", sent)
@@ -295,6 +319,7 @@ func scenarioHostile() int {
 	run.Observe("max_vmhwm_kib", maxHWM)
 	run.Observe("max_open_descriptors", maxFds)
 	run.Observe("garbage_tcp_connections_closed_by_proxy", fmt.Sprintf("%d/%d", closedOK, closedChecked))
+	run.Observe("datagrams_that_are_no_messages_sent_in_floods", floodInputs)
 	run.Observe("memory_bound", "per batch: delta TotalAlloc <= 16 MiB + 1024 x bytes sent; HeapSys <= baseline + 256 MiB")
 	run.Observe("race_reports_during_run", len(wire.RaceReports(w.Proxy.Dir, "sipproxy")))
 	run.Assume("peers that stop reading a TCP connection and tar-pit destinations are outside the stated domain (bytes delivered to a listener)")
